@@ -279,18 +279,58 @@ fn main() {
         }).reduce(Stats::default, Stats::merge)
     };
 
+    // (e) hostile repository states: long and non-ASCII reference names (git's answers then exceed any fixed-size buffer or
+    // preview and contain multi-byte characters at every byte offset), many tags on one commit; plain, -v and RUST_LOG=trace
+    let s_e = {
+        let root = gitx::scratch_root().join("states");
+        let _ = std::fs::create_dir_all(&root);
+        let mut names: Vec<String> = vec![];
+        for unit in ["é", "€", "🙂", "a"] { for pad in ["", "x", "xx", "xxx"] { for n in [40usize, 70, 110] {
+            let name = format!("{pad}{}", unit.repeat(n));
+            if name.len() <= 240 { names.push(name); }
+        }}}
+        names.push(format!("feature/{}/{}", "é".repeat(60), "ü".repeat(50)));
+        let st = names.par_iter().enumerate().map(|(i, name)| {
+            let mut st = Stats::default();
+            let shape = Shape { parents: vec![vec![], vec![0]], branches: [("main".to_string(), 0), (name.clone(), 1)].into_iter().collect(), cur: name.clone(), ops: vec![] };
+            let mut repo = Repo::create(&root, &format!("n{i}"), &shape, &gitx::dates(2, DateMode::Increasing));
+            // tags: one plain version tag, plus (every other scenario) many tags with long non-ASCII names on the same commit
+            let mut tags = vec![Tag { name: "v1.2.3".into(), target: 0, annotated: false }];
+            if i % 2 == 0 { for k in 0..40 { tags.push(Tag { name: format!("rel-{k}-{}", "ß".repeat(20 + k)), target: 0, annotated: k % 3 == 0 }); } }
+            repo.set_tags(&tags);
+            repo.set_head(&Head::Branch(name.clone()));
+            let dir = repo.dir.to_string_lossy().to_string();
+            for sub in ["version", "flow"] {
+                let args = a(&[sub, "-C", &dir]);
+                let label = format!("[repository state: branch of {} bytes ({} chars), {} tags] ", name.len(), name.chars().count(), tags.len());
+                let o1 = judge_proc(&ctx, &args, None, &[], None, &label, &mut st);
+                for (extra, env) in [(vec!["-v"], vec![]), (vec![], vec![("RUST_LOG", "trace")]), (vec!["--verbose"], vec![("RUST_LOG", "debug")])] {
+                    let mut va: Vec<String> = extra.iter().map(|s| s.to_string()).collect(); va.extend(args.iter().cloned());
+                    let o2 = judge_proc(&ctx, &va, None, &env, None, &format!("{label}{env:?} "), &mut st);
+                    st.inc("repository_state_runs");
+                    if o1.stdout != o2.stdout || o1.status != o2.status { ctx.violation("verbose_changes_stdout", format!("{label}{} {env:?}", va.join(" ")), json!({"kind":"repo-state","branch":name}), format!("plain exit {} stdout {:?}; verbose exit {} stdout {:?}", o1.status, truncate(&o1.stdout_str(), 80), o2.status, truncate(&o2.stdout_str(), 80))); }
+                }
+                if o1.status != 0 { ctx.violation("valid_repository_rejected", format!("{label}{}", args.join(" ")), json!({"kind":"repo-state","branch":name}), truncate(&o1.stderr_str(), 200)); }
+            }
+            repo.remove();
+            st
+        }).reduce(Stats::default, Stats::merge);
+        let _ = std::fs::remove_dir_all(&root);
+        st
+    };
+
     // (c) git faults
     let s_c = git_faults(&ctx, quick);
     let _ = std::fs::remove_dir_all(gitx::scratch_root());
 
-    let all = s_a.merge(s_b).merge(s_h).merge(s_c).merge(s_d);
+    let all = s_a.merge(s_b).merge(s_h).merge(s_c).merge(s_d).merge(s_e);
     let mut cov = Coverage::default();
     cov.evaluations = all.get("inprocess_runs") + all.get("process_runs");
     cov.states = jobs.len() as u64 + all.get("fault_plans");
     cov.transitions = cov.evaluations;
     cov.traces_validated = cov.evaluations;
     cov.distinct_nontrivial = all.get("zerv_error") + all.get("usage_error") + all.get("process_failed") + all.get("fault_plans");
-    cov.rule = format!("(a) flags read from Cli::command() at run time; for version and flow in 4 source contexts every single flag x a {}-value adversarial pool, every pair of flags x a {}-value pool, malformed stdin documents; 133 custom precedence orders (every single, every ordered pair, every all-but-one, reversed) on stdin and via --schema-ron x every bump/override flag x a 5-value pool; render/check on {} nasty version strings x formats x templates; every template function x argument pool singles and pairs: {} in-process runs under catch_unwind; (b) a strided slice of those through the real binary plain, with -v and under RUST_LOG=trace / a malformed RUST_LOG / ZERV_FORCE_RUST_LOG_OFF (stdout and status identical, exit/stream protocol), help/version/llm-help; (c) git faults: for each of 6 repository scenarios x [version, flow] the shim records the N git calls of a fault-free run, then every k<=N x 17 fault modes (6 failure modes: exit 1, exit 128, garbage, empty, SIGKILL, silent exit 1; 11 hostile-content modes with status 0: negative / 20-digit / i64::MAX / 2^32 / zero numbers, blank, two hash lines, non-UTF-8 tag names, a 200 KB line, a tag list, stderr noise) (deviation 1){}, plus git missing / -C to a missing path / file / non-repository; (d) through the binary only: 21 recursive input shapes (template parentheses / if / for / + / and / function / filter / ~ / array / path / not nesting or chains, custom JSON, --schema-ron, --branch-rules, stdin documents, long SemVer / PEP 440 strings) at sizes 8, 64, 512, 4096 (thorough also 16384, 60000) and stdin byte contents (invalid UTF-8, NUL, BOM, CRLF, Latin-1): zerv must terminate without abort. non-trivial = runs that end in an error path plus fault plans", pool.len(), spool.len(), versions.len(), jobs.len(), if quick { "" } else { " and every pair of fault points in 2 modes (deviation 2)" });
+    cov.rule = format!("(a) flags read from Cli::command() at run time; for version and flow in 4 source contexts every single flag x a {}-value adversarial pool, every pair of flags x a {}-value pool, malformed stdin documents; 133 custom precedence orders (every single, every ordered pair, every all-but-one, reversed) on stdin and via --schema-ron x every bump/override flag x a 5-value pool; render/check on {} nasty version strings x formats x templates; every template function x argument pool singles and pairs: {} in-process runs under catch_unwind; (b) a strided slice of those through the real binary plain, with -v and under RUST_LOG=trace / a malformed RUST_LOG / ZERV_FORCE_RUST_LOG_OFF (stdout and status identical, exit/stream protocol), help/version/llm-help; (c) git faults: for each of 6 repository scenarios x [version, flow] the shim records the N git calls of a fault-free run, then every k<=N x 17 fault modes (6 failure modes: exit 1, exit 128, garbage, empty, SIGKILL, silent exit 1; 11 hostile-content modes with status 0: negative / 20-digit / i64::MAX / 2^32 / zero numbers, blank, two hash lines, non-UTF-8 tag names, a 200 KB line, a tag list, stderr noise) (deviation 1){}, plus git missing / -C to a missing path / file / non-repository; (d) through the binary only: 21 recursive input shapes (template parentheses / if / for / + / and / function / filter / ~ / array / path / not nesting or chains, custom JSON, --schema-ron, --branch-rules, stdin documents, long SemVer / PEP 440 strings) at sizes 8, 64, 512, 4096 (thorough also 16384, 60000) and stdin byte contents (invalid UTF-8, NUL, BOM, CRLF, Latin-1): zerv must terminate without abort; (e) 49 repositories whose branch name is 40-240 bytes of 1/2/3/4-byte characters at every alignment (half of them with 40 long non-ASCII tags on the tagged commit) x version/flow x plain / -v / RUST_LOG=trace / --verbose+RUST_LOG=debug. non-trivial = runs that end in an error path plus fault plans", pool.len(), spool.len(), versions.len(), jobs.len(), if quick { "" } else { " and every pair of fault points in 2 modes (deviation 2)" });
     cov.exhaustive = true;
     cov.samples = vec![json!(jobs[jobs.len() / 2].0), json!(jobs[17].0), json!({"scenario":"ahead+dirty","command":"flow","fault_at":7,"mode":"garbage"})];
     cov.set("clause_counts", all.to_json());
